@@ -1019,16 +1019,40 @@ def literal_value(node: ast.AST) -> bool:
 
 
 _SET_ORDER_FREE_FUNCTIONS = frozenset(
-    ("all", "any", "bool", "frozenset", "isinstance", "len", "max", "min", "set", "sorted", "sum")
+    ("all", "any", "bool", "frozenset", "isinstance", "len", "max", "min", "set", "sorted")
 )
 
 
+def _contains_set(value) -> bool:
+    if isinstance(value, (set, frozenset)):
+        return True
+    if isinstance(value, (list, tuple)):
+        return any(_contains_set(item) for item in value)
+    if isinstance(value, dict):
+        return any(_contains_set(item) for item in value.values())
+    return False
+
+
 def _require_no_set_order(name: str, values: Sequence) -> None:
-    """The order in which a set is iterated differs between runs, so only what does not depend on
-    it has a known value."""
-    if name not in _SET_ORDER_FREE_FUNCTIONS and any(
-        isinstance(value, (set, frozenset)) for value in values
+    """The order in which a set is iterated differs between runs, and so does the hash of a text,
+    so only what does not depend on them has a known value."""
+    if name in {"hash", "__hash__"}:
+        raise ValueError("Cannot find a deterministic value for a hash")
+    if name in _SET_ORDER_FREE_FUNCTIONS and all(
+        isinstance(value, (set, frozenset)) or not _contains_set(value) for value in values
     ):
+        return
+    if name == "sum" and all(
+        not _contains_set(value)
+        or (
+            isinstance(value, (set, frozenset))
+            and all(isinstance(item, int) for item in value)
+        )
+        for value in values
+    ):
+        # Sums of whole numbers are the same in any order, sums of floats are not
+        return
+    if any(_contains_set(value) for value in values):
         raise ValueError("Cannot find a deterministic value for something that iterates a set")
 
 
@@ -1041,6 +1065,9 @@ def _literal_value(node: ast.AST) -> bool:
     ):
         left = literal_value(node.left)
         right = literal_value(node.right)
+        if isinstance(node.op, ast.Mod) and isinstance(left, (str, bytes)):
+            # Formatting writes a set out in the order in which it is iterated
+            _require_no_set_order("%", [right])
         if isinstance(node.op, (ast.Pow, ast.LShift)) and isinstance(right, int) and right > 10000:
             raise ValueError("Value is too large to be computed")
 
